@@ -189,6 +189,16 @@ def do_request(world, req):
         if world.watch_only:
             return [node.extended_public_key(), None], []
         return [node.extended_public_key(), node.extended_private_key()], []
+    if kind == "xkeys_version":
+        # explicit version numbers, the same integer handed to both entry points of one node object, in a generated order
+        node, path = world.node(req[1])
+        out = []
+        for which in req[3]:
+            if which == "pub" or world.watch_only:
+                out.append(["pub", node.extended_public_key(version=req[2])])
+            else:
+                out.append(["prv", node.extended_private_key(version=req[2])])
+        return out, []
     if kind == "str":
         node, path = world.node(req[1])
         return str(node), []
@@ -272,6 +282,15 @@ def expected(world, req, pool_paths):
     if kind == "xkeys":
         n = R.derive(rm, ppath(req[1]))
         return [n.xpub(R.TPUB if tn else R.XPUB), None if world.watch_only else n.xprv(R.TPRV if tn else R.XPRV)]
+    if kind == "xkeys_version":
+        n = R.derive(rm, ppath(req[1]))
+        out = []
+        for which in req[3]:
+            if which == "pub" or world.watch_only:
+                out.append(["pub", n.xpub(req[2])])
+            else:
+                out.append(["prv", n.xprv(req[2])])
+        return out
     if kind == "str":
         return R.fmt_path(ppath(req[1]), "M" if world.watch_only else "m")
     if kind == "bip85":
@@ -365,6 +384,7 @@ def requests(light=False):
         st.tuples(st.just("node_keys_parsed"), p),
         st.tuples(st.just("foreign_pub"), p, st.lists(st.integers(0, 5), min_size=2, max_size=3)),
         st.tuples(st.just("xkeys"), p),
+        st.tuples(st.just("xkeys_version"), p, st.sampled_from(sorted(R.SLIP132)), st.lists(st.sampled_from(["pub", "prv"]), min_size=2, max_size=4)),
         st.tuples(st.just("str"), p),
         st.tuples(st.just("concat"), p, short_path(2), short_path(2)),
         st.tuples(st.just("gen_take"), p, st.sampled_from(KINDS), st.lists(st.sampled_from([0, 0, 1, 2, 3, 7]), max_size=4)),
@@ -446,7 +466,7 @@ def check_history(case, ctx):
                 tpaths = [p for _, p in twin.pool]
                 if treq is None or not request_ok(treq, tpaths):
                     continue
-                if treq[0] in ("ckd", "derive_path", "children", "address", "temp_address", "node_keys", "node_keys_parsed", "foreign_pub", "xkeys", "str", "concat", "gen_take"):
+                if treq[0] in ("ckd", "derive_path", "children", "address", "temp_address", "node_keys", "node_keys_parsed", "foreign_pub", "xkeys", "xkeys_version", "str", "concat", "gen_take"):
                     treq[1] = treq[1] % len(twin.pool)
                 want = norm(expected(twin, treq, tpaths))
                 st_, res = call(do_request, twin, treq)
@@ -468,7 +488,7 @@ def check_history(case, ctx):
                 req, earlier = adapt(op, wo), None
                 if req is None:
                     continue
-                if req[0] in ("ckd", "derive_path", "children", "address", "temp_address", "node_keys", "node_keys_parsed", "foreign_pub", "xkeys", "str", "concat", "gen_take"):
+                if req[0] in ("ckd", "derive_path", "children", "address", "temp_address", "node_keys", "node_keys_parsed", "foreign_pub", "xkeys", "xkeys_version", "str", "concat", "gen_take"):
                     req[1] = req[1] % len(world.pool)   # resolve the node now; the pool is append-only
             pool_paths = [p for _, p in world.pool]
             if not request_ok(req, pool_paths):
